@@ -1,5 +1,323 @@
-//! Crash-point enumeration (filled in below).
-pub fn main(_args: &[String]) -> i32 {
-    eprintln!("crash: not built yet");
-    2
+//! Crash-point enumeration (DESIGN.md 4.5).
+//!
+//!   crash --in <behaviours.ndjson> --out <trace.ndjson> --dir <scratch> [--max-points N] [--seed S]
+//!
+//! For each behaviour: a dry run in a child process numbers every durable mutation of the driver
+//! thread (cfg hook `io_event`); then, for every k, a child runs the behaviour again in a fresh
+//! directory and `_exit`s immediately *before* performing event k (for an io_uring batch it first
+//! performs a chosen subset of the batch's writes itself: the disk state of a kernel that had
+//! completed exactly that subset); a second child reopens the directory, reports whether recovery
+//! succeeded and drains every topic. The concatenation (events before the crash, `crash` event with
+//! the operation in flight, post-recovery reads) is one trace group for TLC.
+
+use crate::exec::{self, Behaviour, Run};
+use serde_json::{json, Value};
+use std::io::Write;
+use std::path::{Path, PathBuf};
+use walrus_rust::wal::verif;
+
+fn arg_val(args: &[String], name: &str) -> Option<String> {
+    args.iter().position(|a| a == name).and_then(|i| args.get(i + 1).cloned())
+}
+
+fn append_lines(path: &str, lines: &[String]) {
+    if lines.is_empty() {
+        return;
+    }
+    let mut f = std::fs::OpenOptions::new().create(true).append(true).open(path).expect("open out");
+    let mut buf = String::new();
+    for l in lines {
+        buf.push_str(l);
+        buf.push('\n');
+    }
+    f.write_all(buf.as_bytes()).expect("write");
+}
+
+/// Child: run the behaviour, crashing before counted event `at` (0 = dry run).
+fn child_run(args: &[String]) -> i32 {
+    let spec = arg_val(args, "--beh").expect("--beh");
+    let dir = arg_val(args, "--dir").expect("--dir");
+    let out = arg_val(args, "--out").expect("--out");
+    let at: u64 = arg_val(args, "--at").map(|s| s.parse().unwrap()).unwrap_or(0);
+    let mask: u64 = arg_val(args, "--mask").map(|s| s.parse().unwrap()).unwrap_or(0);
+    let beh: Behaviour = serde_json::from_slice(&std::fs::read(&spec).expect("read beh")).expect("beh json");
+    exec::set_backend(&beh.cfg);
+    exec::start_watchdog(30, out.clone());
+    verif::count_this_thread(true);
+    if at == 0 {
+        verif::set_recording(true, false);
+    } else {
+        verif::set_crash_at(at, mask);
+    }
+    let base = PathBuf::from(&dir);
+    std::fs::create_dir_all(&base).unwrap();
+    let mut run = Run::new(&beh.id, &beh.cfg, &base);
+    run.keep_io_log = at == 0;
+    append_lines(&out, &[json!({"ev":"note","what":"opstart","op":{"op":"_open"}}).to_string()]);
+    for i in 0..run.insts.len() {
+        if let Err(e) = run.open_inst(i) {
+            run.emit(json!({"ev":"reopen","i":i,"res":e,"proc":"initial"}));
+            append_lines(&out, &run.lines);
+            return 0;
+        }
+    }
+    append_lines(&out, &[json!({"ev":"note","what":"opdone"}).to_string()]);
+    for op in beh.ops.iter() {
+        if run.dead {
+            break;
+        }
+        append_lines(&out, &[json!({"ev":"note","what":"opstart","op":op}).to_string()]);
+        run.exec_op(op);
+        run.emit(json!({"ev":"note","what":"opdone"}));
+        let lines = std::mem::take(&mut run.lines);
+        append_lines(&out, &lines);
+    }
+    if at == 0 {
+        // dry run: report the numbered events
+        let _ = run.drain_io();
+        let log = run.io_log_all.clone();
+        let mut evs: Vec<Value> = Vec::new();
+        let mut i = 0;
+        while i < log.len() {
+            let r = &log[i];
+            if r.counted {
+                let mut n = 0;
+                if r.kind == "uring_submit" {
+                    n = r.len;
+                }
+                evs.push(json!({"seq": r.seq, "kind": r.kind, "n": n}));
+            }
+            i += 1;
+        }
+        append_lines(&out, &[json!({"ev":"note","what":"iolog","total": verif::io_counter(), "events": evs}).to_string()]);
+    }
+    // leave without a clean shutdown: a completed run followed by a crash at "N+1"
+    std::io::stdout().flush().ok();
+    unsafe { libc::_exit(0) }
+}
+
+/// Child: reopen after a crash and drain.
+fn child_recover(args: &[String]) -> i32 {
+    let spec = arg_val(args, "--beh").expect("--beh");
+    let dir = arg_val(args, "--dir").expect("--dir");
+    let out = arg_val(args, "--out").expect("--out");
+    let inflight: Value = serde_json::from_str(&arg_val(args, "--inflight").unwrap_or("[]".into())).unwrap_or(json!([]));
+    let beh: Behaviour = serde_json::from_slice(&std::fs::read(&spec).expect("read beh")).expect("beh json");
+    exec::set_backend(&beh.cfg);
+    exec::start_watchdog(30, out.clone());
+    verif::count_this_thread(true);
+    let base = PathBuf::from(&dir);
+    let mut run = Run::new(&beh.id, &beh.cfg, &base);
+    let mut res = "ok".to_string();
+    for i in 0..run.insts.len() {
+        if let Err(e) = run.open_inst(i) {
+            res = e;
+            break;
+        }
+    }
+    run.emit(json!({"ev":"crash","i":0,"inflight":inflight,"res":res}));
+    if res == "ok" {
+        let topics = run.cfg.topics.clone();
+        for i in 0..run.insts.len() {
+            for t in topics.iter() {
+                for _ in 0..40 {
+                    let before = run.lines.len();
+                    run.exec_op(&json!({"op":"bread","i":i,"t":t,"budget":-1,"ckpt":true,"off":-1}));
+                    let empty = run.lines[before..].iter().any(|l| l.contains("\"ev\":\"bread\"") && l.contains("\"res\":[]"));
+                    if empty {
+                        break;
+                    }
+                }
+                run.exec_op(&json!({"op":"read","i":i,"t":t,"ckpt":true}));
+            }
+        }
+    }
+    let lines = std::mem::take(&mut run.lines);
+    append_lines(&out, &lines);
+    0
+}
+
+fn inflight_of(op: &Value, max_batch: u64) -> Value {
+    let kind = op["op"].as_str().unwrap_or("");
+    let i = op["i"].as_u64().unwrap_or(0) as usize;
+    let t = exec::compound(i, op["t"].as_str().unwrap_or("a"));
+    if op.get("tlen").is_some() {
+        return json!([]);
+    }
+    match kind {
+        "append" => {
+            let id = op["id"].as_i64().unwrap();
+            let sz = op["size"].as_u64().unwrap() as usize;
+            json!(["append", t, [[crate::payload::key_of(id, sz), sz]]])
+        }
+        "batch" => {
+            let es: Vec<Value> = op["es"].as_array().unwrap().iter().map(|e| {
+                let id = e[0].as_i64().unwrap();
+                let sz = e[1].as_u64().unwrap() as usize;
+                json!([crate::payload::key_of(id, sz), sz])
+            }).collect();
+            json!(["batch", t, es])
+        }
+        "read" if op["ckpt"].as_bool().unwrap_or(true) => json!(["read", t, 1]),
+        "bread" if op["ckpt"].as_bool().unwrap_or(true) && op["off"].as_i64().unwrap_or(-1) < 0 => json!(["read", t, max_batch]),
+        _ => json!([]),
+    }
+}
+
+fn run_child(args: &[&str]) -> i32 {
+    let st = std::process::Command::new(std::env::current_exe().unwrap())
+        .arg("crash")
+        .args(args)
+        .env("WALRUS_QUIET", "1")
+        .status();
+    match st {
+        Ok(s) => s.code().unwrap_or(-1),
+        Err(_) => -2,
+    }
+}
+
+fn read_lines(path: &str) -> Vec<Value> {
+    std::fs::read_to_string(path)
+        .unwrap_or_default()
+        .lines()
+        .filter_map(|l| serde_json::from_str(l).ok())
+        .collect()
+}
+
+fn masks_for(n: u64, seed: u64) -> Vec<u64> {
+    if n == 0 {
+        return vec![0];
+    }
+    if n <= 4 {
+        return (0..(1u64 << n)).collect();
+    }
+    let n = n.min(60);
+    let full = (1u64 << n) - 1;
+    let mut v = vec![0, full];
+    for k in 1..n {
+        v.push((1u64 << k) - 1); // prefixes
+    }
+    for k in 1..n.min(6) {
+        v.push(full & !((1u64 << k) - 1)); // suffixes
+        v.push(full & !(1u64 << k)); // single holes
+    }
+    let mut x = seed | 1;
+    for _ in 0..6 {
+        x ^= x << 13;
+        x ^= x >> 7;
+        x ^= x << 17;
+        v.push(x & full);
+    }
+    v.sort();
+    v.dedup();
+    v
+}
+
+pub fn main(args: &[String]) -> i32 {
+    if !args.is_empty() && args[0] == "child-run" {
+        return child_run(&args[1..]);
+    }
+    if !args.is_empty() && args[0] == "child-recover" {
+        return child_recover(&args[1..]);
+    }
+    let inp = arg_val(args, "--in").expect("--in");
+    let out = arg_val(args, "--out").expect("--out");
+    let dir = arg_val(args, "--dir").expect("--dir");
+    let max_points: usize = arg_val(args, "--max-points").map(|s| s.parse().unwrap()).unwrap_or(usize::MAX);
+    let seed: u64 = arg_val(args, "--seed").map(|s| s.parse().unwrap()).unwrap_or(1);
+    let g = exec::geometry();
+    let text = std::fs::read_to_string(&inp).expect("read behaviours");
+    let behs: Vec<Behaviour> = text.lines().filter(|l| !l.trim().is_empty()).map(|l| serde_json::from_str(l).expect("beh")).collect();
+    let root = Path::new(&dir);
+    let _ = std::fs::create_dir_all(root);
+    for (bn, beh) in behs.iter().enumerate() {
+        let bdir = root.join(format!("c{}", bn));
+        let _ = std::fs::remove_dir_all(&bdir);
+        std::fs::create_dir_all(&bdir).unwrap();
+        let spec = bdir.join("beh.json");
+        std::fs::write(&spec, serde_json::to_vec(beh).unwrap()).unwrap();
+        let spec_s = spec.to_string_lossy().into_owned();
+        // dry run
+        let dry_out = bdir.join("dry.ndjson").to_string_lossy().into_owned();
+        let dry_dir = bdir.join("dry").to_string_lossy().into_owned();
+        let rc = run_child(&["child-run", "--beh", &spec_s, "--dir", &dry_dir, "--out", &dry_out, "--at", "0"]);
+        let dry = read_lines(&dry_out);
+        let _ = std::fs::remove_dir_all(&dry_dir);
+        let iolog = dry.iter().rev().find(|e| e["what"] == "iolog").cloned();
+        let (total, events) = match iolog {
+            Some(l) => (l["total"].as_u64().unwrap_or(0), l["events"].as_array().cloned().unwrap_or_default()),
+            None => {
+                append_lines(&out, &[json!({"ev":"reset","g":format!("{}@dry", beh.id),"mode":beh.cfg.mode,"pe":beh.cfg.pe.max(1),"mb":g.max_batch}).to_string(),
+                                     json!({"ev":"died","st":"died","rc":rc,"what":"dry run did not finish"}).to_string()]);
+                continue;
+            }
+        };
+        // crash points: every counted event k in 1..=total, and total+1 (after the last one)
+        let mut points: Vec<(u64, u64)> = Vec::new();
+        for k in 1..=total + 1 {
+            let n = events.iter().find(|e| e["seq"].as_u64() == Some(k)).map(|e| e["n"].as_u64().unwrap_or(0)).unwrap_or(0);
+            for m in masks_for(n, seed.wrapping_mul(31).wrapping_add(k)) {
+                points.push((k, m));
+            }
+        }
+        if points.len() > max_points {
+            // deterministic thinning, keeping every io_uring subset point
+            let step = (points.len() + max_points - 1) / max_points;
+            points = points.into_iter().enumerate().filter(|(i, (_k, m))| *m != 0 || i % step == (seed as usize) % step).map(|(_, p)| p).collect();
+        }
+        for (k, m) in points {
+            let pdir = bdir.join(format!("p{}_{}", k, m));
+            let pdir_s = pdir.to_string_lossy().into_owned();
+            let pout = bdir.join(format!("p{}_{}.ndjson", k, m)).to_string_lossy().into_owned();
+            let ks = k.to_string();
+            let ms = m.to_string();
+            let rc = run_child(&["child-run", "--beh", &spec_s, "--dir", &pdir_s, "--out", &pout, "--at", &ks, "--mask", &ms]);
+            let evs = read_lines(&pout);
+            // operation in flight = last opstart without opdone
+            let mut inflight_op: Option<Value> = None;
+            let mut lines: Vec<String> = Vec::new();
+            lines.push(json!({"ev":"reset","g":format!("{}@{}m{}", beh.id, k, m),"mode":beh.cfg.mode,"pe":beh.cfg.pe.max(1),"mb":g.max_batch,
+                               "backend":beh.cfg.backend,"geom": if g.tiny {"tiny"} else {"real"},"crash_at":k,"mask":m,"child_rc":rc}).to_string());
+            let mut pending: Vec<String> = Vec::new();
+            for e in evs.iter() {
+                if e["ev"] == "note" && e["what"] == "opstart" {
+                    inflight_op = Some(e["op"].clone());
+                    pending.clear();
+                } else if e["ev"] == "note" && e["what"] == "opdone" {
+                    inflight_op = None;
+                    lines.append(&mut pending);
+                } else {
+                    pending.push(e.to_string());
+                }
+            }
+            // events of an operation that was interrupted are not acknowledged results
+            if rc != 77 && rc != 0 {
+                lines.push(json!({"ev":"died","st":"died","rc":rc}).to_string());
+                append_lines(&out, &lines);
+                let _ = std::fs::remove_dir_all(&pdir);
+                let _ = std::fs::remove_file(&pout);
+                continue;
+            }
+            let inflight = match (&inflight_op, rc) {
+                (Some(op), 77) => inflight_of(op, g.max_batch),
+                _ => json!([]),
+            };
+            let rout = bdir.join(format!("r{}_{}.ndjson", k, m)).to_string_lossy().into_owned();
+            let infl_s = inflight.to_string();
+            let rrc = run_child(&["child-recover", "--beh", &spec_s, "--dir", &pdir_s, "--out", &rout, "--inflight", &infl_s]);
+            let revs = read_lines(&rout);
+            if revs.is_empty() {
+                lines.push(json!({"ev":"crash","i":0,"inflight":inflight,"res":format!("recover_child_exit_{}", rrc)}).to_string());
+            }
+            for e in revs {
+                lines.push(e.to_string());
+            }
+            append_lines(&out, &lines);
+            let _ = std::fs::remove_dir_all(&pdir);
+            let _ = std::fs::remove_file(&pout);
+            let _ = std::fs::remove_file(&rout);
+        }
+        let _ = std::fs::remove_dir_all(&bdir);
+    }
+    0
 }
